@@ -16,24 +16,34 @@ package nsqadmin
 //@   props C18
 //@   requires validS(s) && http_api.mServerReq(req)
 //@   ensures[error-is-502] result1 != nil ==> iupstream502(result1) && result0 == nil
+//   (round 5, area H) "the view is built from the rest": a complete or PARTIAL producer look-up (nil or an ErrList; r4DNPErr = what the look-up returned) never gives an error answer
+//@   ensures[partial-failure-still-answers] clusterinfo.r4DUsable(r4DNPErr) ==> result1 == nil
+//   "... and carries a warning": after a PARTIAL look-up the list of warnings handed to maybeWarnMsg is not empty (so the view's message is not empty: maybeWarnMsg/[warning-when-something-failed])
+//@   ensures[partial-failure-carries-a-warning] clusterinfo.ipartial(r4DNPErr) && result1 == nil ==> len(final(messages)) >= 1
 //@   ensures[answer] result1 == nil ==> result0 != nil
 
 //@ func (s *httpServer) channelHandler(w http.ResponseWriter, req *http.Request, ps httprouter.Params) (interface{}, error)
 //@   props C18
 //@   requires validS(s) && http_api.mServerReq(req)
 //@   ensures[error-is-502] result1 != nil ==> iupstream502(result1) && result0 == nil
+//   (round 5, area H) complete or PARTIAL look-ups (r4DTPErr = producers of the topic, r5HStatsErr = their stats) never give an error answer
+//@   ensures[partial-failure-still-answers] clusterinfo.r4DUsable(r4DTPErr) && clusterinfo.r4DUsable(r5HStatsErr) ==> result1 == nil
 //@   ensures[answer] result1 == nil ==> result0 != nil
 
 //@ func (s *httpServer) topicsHandler(w http.ResponseWriter, req *http.Request, ps httprouter.Params) (interface{}, error)
 //@   props C18
 //@   requires validS(s) && http_api.mServerReq(req)
 //@   ensures[error-is-502-or-400] result1 != nil ==> (iupstream502(result1) || (dyntype(result1) == typetag("http_api.Err") && unbox(result1, "http_api.Err").Code == 400)) && result0 == nil
+//   (round 5, area H) a complete or PARTIAL topic look-up (r5HTopicsErr = what GetLookupdTopics / GetNSQDTopics returned) never gives a 502: the only error answer left is the 400 of a bad request
+//@   ensures[partial-failure-still-answers] clusterinfo.r4DUsable(r5HTopicsErr) ==> result1 == nil || (dyntype(result1) == typetag("http_api.Err") && unbox(result1, "http_api.Err").Code == 400)
 //@   ensures[answer] result1 == nil ==> result0 != nil
 
 //@ func (s *httpServer) topicHandler(w http.ResponseWriter, req *http.Request, ps httprouter.Params) (interface{}, error)
 //@   props C18
 //@   requires validS(s) && http_api.mServerReq(req)
 //@   ensures[error-is-502] result1 != nil ==> iupstream502(result1) && result0 == nil
+//   (round 5, area H) complete or PARTIAL look-ups (r4DTPErr = producers of the topic, r5HStatsErr = their stats) never give an error answer
+//@   ensures[partial-failure-still-answers] clusterinfo.r4DUsable(r4DTPErr) && clusterinfo.r4DUsable(r5HStatsErr) ==> result1 == nil
 //@   ensures[answer] result1 == nil ==> result0 != nil
 // ASSUMED (call protocol, not proved: the workers of GetNSQDStats run in goroutines the engine skips):
 // the per-node objects decoded from the upstream answers are real, pairwise separate objects, and the
